@@ -107,6 +107,7 @@ type ContractSet struct {
 	Preds  map[string]*PredDef
 	Axioms []*AxiomDef
 	Guards []*GuardDecl
+	LockInvs map[string]*Clause // type key (pkg.Type) -> invariant over `self`
 	Order  []string
 }
 
@@ -162,7 +163,7 @@ var clauseKeywords = map[string]bool{
 	"decreases": true, "arith": true, "inline": true, "pure": true, "calllog": true, "call": true,
 	"assert": true, "lock": true, "finding": true, "pred": true, "fun": true, "axiom": true,
 	"lemma": true, "guards": true, "trusted": true, "note": true, "opt": true, "exit-ghost": true,
-	"use": true, "ufun": true, "ghost-at": true,
+	"use": true, "ufun": true, "ghost-at": true, "lockinv": true,
 }
 
 func (cs *ContractSet) parseLines(file string, lines []string, nums []int, extern bool) error {
@@ -266,6 +267,21 @@ func (cs *ContractSet) parseLines(file string, lines []string, nums []int, exter
 				return fmt.Errorf("%s: %v", src, err)
 			}
 			cs.Axioms = append(cs.Axioms, &AxiomDef{Name: strings.TrimSpace(it.rest[:k]), Body: e, Src: src, IsLemma: it.kw == "lemma", Text: it.rest[k+1:]})
+			continue
+		case "lockinv":
+			// lockinv heap.Heap : heapInv(self)
+			k := strings.Index(it.rest, ":")
+			if k < 0 {
+				return fmt.Errorf("%s: lockinv needs 'pkg.Type : expr over self'", src)
+			}
+			e, err := parseExpr(it.rest[k+1:])
+			if err != nil {
+				return fmt.Errorf("%s: %v", src, err)
+			}
+			if cs.LockInvs == nil {
+				cs.LockInvs = map[string]*Clause{}
+			}
+			cs.LockInvs[strings.TrimSpace(it.rest[:k])] = &Clause{Kind: "lockinv", Text: it.rest[k+1:], Expr: e, Src: src}
 			continue
 		case "guards":
 			// guards (*Heap).mu : h.data, h.comp
@@ -1287,4 +1303,9 @@ func (cs *ContractSet) axiomsFor(sp *FuncSpec) []*AxiomDef {
 		}
 	}
 	return out
+}
+
+// modeSkip: a clause tagged [seq] is only used in the sequential proof, one tagged [conc] only in concurrent mode.
+func modeSkip(c *Clause, conc bool) bool {
+	return (c.Tag == "seq" && conc) || (c.Tag == "conc" && !conc)
 }
